@@ -374,7 +374,7 @@ def run_shards(ctx, stream, prelude, terms, tag):
         k, name = item
         out = open(os.path.join(d, name + ".out"), "w")
         p = subprocess.Popen(
-            ["timeout", str(stream.coqc_timeout), "coqc", "-Q", ctx.coq_dir, "PV", "-w", "-all", name + ".v"],
+            ["timeout", str(stream.coqc_timeout), "coqc", "-noglob", "-Q", ctx.coq_dir, "PV", "-w", "-all", name + ".v"],
             cwd=d, stdout=out, stderr=subprocess.STDOUT,
         )
         return (k, name, p, out)
@@ -427,7 +427,7 @@ def explain_cases(ctx, stream, prelude, terms, tag):
         body.append(f"Eval vm_compute in ({stream.explain}) pv_c{i}.")
     with open(os.path.join(d, "explain.v"), "w", encoding="utf-8") as f:
         f.write("\n".join(body) + "\n")
-    rc, out = _run(["timeout", "300", "coqc", "-Q", ctx.coq_dir, "PV", "-w", "-all", "explain.v"], cwd=d, timeout=330)
+    rc, out = _run(["timeout", "300", "coqc", "-noglob", "-Q", ctx.coq_dir, "PV", "-w", "-all", "explain.v"], cwd=d, timeout=330)
     if rc != 0:
         return [f"explain failed: {out[-500:]}"]
     return coqio.parse_evals(out)
@@ -635,7 +635,19 @@ def _run_check(prop, ctx, t_start, replay):
         for stream in prop.streams:
             if replay is not None and replay.get("stream") not in (None, stream.name):
                 continue
-            r = _stream_pass(ctx, prop, stream, findings, budget_of(stream), focus, tag, stats)
+            try:
+                r = _stream_pass(ctx, prop, stream, findings, budget_of(stream), focus, tag, stats)
+            except TranslateError as exc:
+                # a stream that needs the translated constants cannot run: the tie is broken (rule 3), not the infrastructure
+                msg = f"stream {stream.name} cannot run: translator(T1) refused the current source: {exc}"
+                if msg not in broken:
+                    broken.append(msg)
+                continue
+            except Exception as exc:  # pylint: disable=broad-except
+                if any("translator(T1)" in b for b in broken):
+                    tie_errors.append(f"{stream.name}: cannot run after the translator refused the source: {type(exc).__name__}: {exc}")
+                    continue
+                raise
             for e in r["errors"]:
                 tie_errors.append(f"{stream.name}: {e}")
             bm = set(r["bad_model"])
